@@ -785,6 +785,13 @@ impl<'tcx> Cx<'tcx> {
     fn walk_root(&mut self, did: DefId) -> J {
         let tcx = self.tcx;
         let root_ty = tcx.type_of(did).instantiate_identity().skip_norm_wip();
+        let label = tcx.def_path_str(did);
+        self.walk_ty(root_ty, did, label)
+    }
+
+    fn walk_ty(&mut self, root_ty: Ty<'tcx>, env_did: DefId, label: String) -> J {
+        let tcx = self.tcx;
+        let did = env_did;
         let env = TypingEnv::post_analysis(tcx, did);
         let mut visited: BTreeSet<String> = BTreeSet::new();
         let mut hits: Vec<J> = Vec::new();
@@ -852,7 +859,7 @@ impl<'tcx> Cx<'tcx> {
             }
         }
         obj(vec![
-            ("root", s(tcx.def_path_str(did))),
+            ("root", s(label)),
             ("root_ty", self.ty(root_ty)),
             ("visited", n(visited.len() as i128)),
             ("visited_types", J::Arr(visited.into_iter().map(s).collect())),
@@ -1070,6 +1077,19 @@ impl<'tcx> Cx<'tcx> {
                 walks.push(self.walk_root(did));
             }
         }
+        // walks of every static's type, and a positive control (RefCell must be flagged)
+        let mut static_walks = Vec::new();
+        for ld in tcx.hir_crate_items(()).definitions() {
+            let did = ld.to_def_id();
+            if let DefKind::Static { .. } = tcx.def_kind(did) {
+                let t = tcx.type_of(did).instantiate_identity().skip_norm_wip();
+                static_walks.push(self.walk_ty(t, did, tcx.def_path_str(did)));
+            }
+        }
+        let mut control_walks = Vec::new();
+        if let Some(rc) = tcx.get_diagnostic_item(rustc_span::sym::RefCell) {
+            control_walks.push(self.walk_root(rc));
+        }
         // ADT table: local + seen external
         let mut adts = Vec::new();
         let mut all: HashSet<DefId> = self.adts_seen.clone();
@@ -1115,6 +1135,8 @@ impl<'tcx> Cx<'tcx> {
             ("sigs", J::Arr(sigs)),
             ("unsafe_blocks", J::Arr(unsafe_blocks)),
             ("type_walks", J::Arr(walks)),
+            ("static_walks", J::Arr(static_walks)),
+            ("control_walks", J::Arr(control_walks)),
             (
                 "externs",
                 J::Obj(std::mem::take(&mut self.externs).into_iter().collect()),
